@@ -11,9 +11,16 @@ import (
 // checkAsm validates write<Col>.
 func (tv *tvChecker) checkAsm(c *column, fd *ast.FuncDecl) ([]string, int) {
 	a := &asmCheck{tv: tv, c: c, params: map[string]types.Object{}}
+	// parameters by position: the record, the values, the definition levels, the repetition levels
+	var plist []types.Object
 	for _, f := range fd.Type.Params.List {
 		for _, n := range f.Names {
-			a.params[n.Name] = tv.info.Defs[n]
+			plist = append(plist, tv.info.Defs[n])
+		}
+	}
+	for i, role := range []string{"x", "vals", "defs", "reps"} {
+		if i < len(plist) {
+			a.params[role] = plist[i]
 		}
 	}
 	if c.maxDef() == 0 {
@@ -32,6 +39,9 @@ func (tv *tvChecker) checkAsm(c *column, fd *ast.FuncDecl) ([]string, int) {
 	cases := map[[2]int]ast.Stmt{} // (d, r) -> stmt ; r=-1 any
 	counts := map[int]bool{}       // d -> advances value
 	loop := c.maxRep() > 0
+	if err := a.driver(fd, loop); err != "" {
+		return []string{err}, 1
+	}
 	if err := a.extract(fd, loop, cases, counts); err != "" {
 		return []string{"undecided: " + err}, 1
 	}
@@ -68,8 +78,187 @@ func (tv *tvChecker) checkAsm(c *column, fd *ast.FuncDecl) ([]string, int) {
 type asmCheck struct {
 	tv     *tvChecker
 	c      *column
-	params map[string]types.Object
+	params map[string]types.Object // by role: x, vals, defs, reps, def, rep, nVals, nLevels, ind, i
 	viol   []string
+}
+
+// driver validates the fixed part of an assembler around its case analysis and resolves the local variables by the
+// role they play (not by name): a non-repeated column reads one level, `d := defs[0]`, and returns (values, 1);
+// a repeated column walks the levels of one record:
+//	for i := range defs { d := defs[i]; r := reps[i]; if i > 0 && r == 0 { break }; levels++; ind.rep(r); switch d {…} }
+//	return values, levels
+func (a *asmCheck) driver(fd *ast.FuncDecl, loop bool) string {
+	info := a.tv.info
+	isParamIndex := func(e ast.Expr, role string) (ast.Expr, bool) {
+		ix, ok := e.(*ast.IndexExpr)
+		if !ok {
+			return nil, false
+		}
+		id, ok := ix.X.(*ast.Ident)
+		if !ok || a.obj(id) != a.params[role] {
+			return nil, false
+		}
+		return ix.Index, true
+	}
+	define := func(st ast.Stmt) (*ast.Ident, ast.Expr) {
+		as, ok := st.(*ast.AssignStmt)
+		if !ok || as.Tok != token.DEFINE || len(as.Lhs) != 1 || len(as.Rhs) != 1 {
+			return nil, nil
+		}
+		id, _ := as.Lhs[0].(*ast.Ident)
+		return id, as.Rhs[0]
+	}
+	if !loop {
+		if len(fd.Body.List) < 2 {
+			return "undecided: assembler body too short"
+		}
+		id, rhs := define(fd.Body.List[0])
+		idx, ok := isParamIndex(rhs, "defs")
+		if id == nil || !ok {
+			return "undecided: driver: the assembler does not start by reading its definition level"
+		}
+		if n, isC := a.tv.constInt(idx); !isC || n != 0 {
+			return "driver: the definition level is not the first entry (defs[0])"
+		}
+		a.params["def"] = info.Defs[id]
+		// the fall-through return: no value, one level
+		ret, ok := fd.Body.List[len(fd.Body.List)-1].(*ast.ReturnStmt)
+		if !ok || len(ret.Results) != 2 {
+			return "undecided: driver: no final return"
+		}
+		v, ok1 := a.tv.constInt(ret.Results[0])
+		l, ok2 := a.tv.constInt(ret.Results[1])
+		if !ok1 || !ok2 || v != 0 || l != 1 {
+			return "driver: when no case applies the assembler must report 0 values and 1 level consumed"
+		}
+		return ""
+	}
+	var rng *ast.RangeStmt
+	for _, st := range fd.Body.List {
+		switch x := st.(type) {
+		case *ast.DeclStmt:
+		case *ast.AssignStmt:
+			// ind := make(indices, N)
+			id, rhs := define(x)
+			if call, ok := rhs.(*ast.CallExpr); ok && id != nil {
+				if f, ok := call.Fun.(*ast.Ident); ok && f.Name == "make" && len(call.Args) == 2 {
+					n, isC := a.tv.constInt(call.Args[1])
+					if !isC || n < a.c.maxRep() {
+						return fmt.Sprintf("driver: the index vector has %d entries, the column has %d repeated levels (indexing it panics)", n, a.c.maxRep())
+					}
+					a.params["ind"] = info.Defs[id]
+				}
+			}
+		case *ast.RangeStmt:
+			rng = x
+		}
+	}
+	if rng == nil {
+		return "undecided: driver: no loop over the levels"
+	}
+	if id, ok := rng.X.(*ast.Ident); !ok || a.obj(id) != a.params["defs"] || rng.Value != nil {
+		return "driver: the loop does not run over the definition levels by index"
+	}
+	ki, _ := rng.Key.(*ast.Ident)
+	if ki == nil {
+		return "undecided: driver: loop without index"
+	}
+	a.params["i"] = info.Defs[ki]
+	isI := func(e ast.Expr) bool { id, ok := e.(*ast.Ident); return ok && a.obj(id) == a.params["i"] }
+	stage := 0
+	for _, st := range rng.Body.List {
+		switch x := st.(type) {
+		case *ast.AssignStmt:
+			id, rhs := define(x)
+			if id == nil {
+				return "undecided: driver: unexpected assignment in the level loop"
+			}
+			if idx, ok := isParamIndex(rhs, "defs"); ok && isI(idx) {
+				a.params["def"] = info.Defs[id]
+			} else if idx, ok := isParamIndex(rhs, "reps"); ok && isI(idx) {
+				a.params["rep"] = info.Defs[id]
+			} else {
+				return "driver: a level is read from somewhere other than defs[i] / reps[i]"
+			}
+		case *ast.IfStmt:
+			// if i > 0 && rep == 0 { break }
+			if stage != 0 || a.params["rep"] == nil {
+				return "undecided: driver: unexpected if in the level loop"
+			}
+			be, ok := x.Cond.(*ast.BinaryExpr)
+			okCond := false
+			if ok && be.Op == token.LAND {
+				l, lok := be.X.(*ast.BinaryExpr)
+				r, rok := be.Y.(*ast.BinaryExpr)
+				if lok && rok {
+					for _, pr := range [][2]*ast.BinaryExpr{{l, r}, {r, l}} {
+						n0, c0 := a.tv.constInt(pr[0].Y)
+						n1, c1 := a.tv.constInt(pr[1].Y)
+						rid, isR := pr[1].X.(*ast.Ident)
+						if isI(pr[0].X) && c0 && ((pr[0].Op == token.GTR && n0 == 0) || (pr[0].Op == token.GEQ && n0 == 1) || (pr[0].Op == token.NEQ && n0 == 0)) &&
+							isR && a.obj(rid) == a.params["rep"] && c1 && pr[1].Op == token.EQL && n1 == 0 {
+							okCond = true
+						}
+					}
+				}
+			}
+			brk := len(x.Body.List) == 1 && x.Else == nil
+			if brk {
+				b, ok := x.Body.List[0].(*ast.BranchStmt)
+				brk = ok && b.Tok == token.BREAK
+			}
+			if !okCond || !brk {
+				return "driver: a record's levels must end exactly before the next entry with repetition level 0 (`if i > 0 && rep == 0 { break }`)"
+			}
+			stage = 1
+		case *ast.IncDecStmt:
+			id, ok := x.X.(*ast.Ident)
+			if !ok || x.Tok != token.INC || stage != 1 {
+				return "driver: the consumed-level counter is not advanced once per entry, after the end-of-record test"
+			}
+			a.params["nLevels"] = a.obj(id)
+			stage = 2
+		case *ast.ExprStmt:
+			call, ok := x.X.(*ast.CallExpr)
+			sel, ok2 := func() (*ast.SelectorExpr, bool) {
+				if !ok {
+					return nil, false
+				}
+				s, ok := call.Fun.(*ast.SelectorExpr)
+				return s, ok
+			}()
+			if !ok2 || stage != 2 || len(call.Args) != 1 {
+				return "undecided: driver: unexpected call in the level loop"
+			}
+			recv, _ := sel.X.(*ast.Ident)
+			arg, _ := call.Args[0].(*ast.Ident)
+			if recv == nil || a.obj(recv) != a.params["ind"] || sel.Sel.Name != "rep" || arg == nil || a.obj(arg) != a.params["rep"] {
+				return "driver: the index vector is not advanced with this entry's repetition level"
+			}
+			stage = 3
+		case *ast.SwitchStmt:
+			if stage != 3 {
+				return "driver: the case analysis runs before the entry has been counted and the indices advanced"
+			}
+			stage = 4
+		default:
+			return fmt.Sprintf("undecided: driver: statement %T in the level loop", st)
+		}
+	}
+	if a.params["def"] == nil || a.params["rep"] == nil || stage != 4 {
+		return "driver: the level loop does not read defs[i] and reps[i], test for the end of the record, count the entry, advance the indices and then analyse the case"
+	}
+	ret, ok := fd.Body.List[len(fd.Body.List)-1].(*ast.ReturnStmt)
+	if !ok || len(ret.Results) != 2 {
+		return "undecided: driver: no final return"
+	}
+	v, _ := ret.Results[0].(*ast.Ident)
+	l, _ := ret.Results[1].(*ast.Ident)
+	if v == nil || l == nil || a.obj(l) != a.params["nLevels"] {
+		return "driver: the assembler does not return (values consumed, levels consumed)"
+	}
+	a.params["nVals"] = a.obj(v)
+	return ""
 }
 
 func (a *asmCheck) bad(f string, x ...interface{}) { a.viol = append(a.viol, fmt.Sprintf(f, x...)) }
@@ -85,7 +274,7 @@ func (a *asmCheck) extract(fd *ast.FuncDecl, loop bool, cases map[[2]int]ast.Stm
 	var sw *ast.SwitchStmt
 	ast.Inspect(fd.Body, func(n ast.Node) bool {
 		if s, ok := n.(*ast.SwitchStmt); ok && sw == nil {
-			if id, ok := s.Tag.(*ast.Ident); ok && id.Name == "def" {
+			if id, ok := s.Tag.(*ast.Ident); ok && a.obj(id) == a.params["def"] {
 				sw = s
 				return false
 			}
@@ -114,7 +303,7 @@ func (a *asmCheck) extract(fd *ast.FuncDecl, loop bool, cases map[[2]int]ast.Stm
 					cases[[2]int{d, -1}] = x
 				case *ast.SwitchStmt:
 					id, ok := x.Tag.(*ast.Ident)
-					if !ok || id.Name != "rep" {
+					if !ok || a.obj(id) != a.params["rep"] {
 						return "inner switch not on rep"
 					}
 					for _, rc := range x.Body.List {
@@ -134,7 +323,7 @@ func (a *asmCheck) extract(fd *ast.FuncDecl, loop bool, cases map[[2]int]ast.Stm
 						}
 					}
 				case *ast.IncDecStmt:
-					if id, ok := x.X.(*ast.Ident); ok && id.Name == "nVals" && x.Tok == token.INC {
+					if id, ok := x.X.(*ast.Ident); ok && a.obj(id) == a.params["nVals"] && x.Tok == token.INC {
 						counts[d] = true
 					} else {
 						return "incdec"
@@ -227,7 +416,7 @@ func (a *asmCheck) walk(e ast.Expr, t *target) (int, string) {
 			t.err = "index expr not ind[k]"
 			return 0, "bad"
 		}
-		if id, ok := ix.X.(*ast.Ident); !ok || id.Name != "ind" {
+		if id, ok := ix.X.(*ast.Ident); !ok || a.obj(id) != a.params["ind"] {
 			t.err = "index expr not ind[k]"
 			return 0, "bad"
 		}
@@ -257,7 +446,7 @@ func (a *asmCheck) isVals(e ast.Expr, loop bool) bool {
 	}
 	if loop {
 		j, ok := ix.Index.(*ast.Ident)
-		return ok && j.Name == "nVals"
+		return ok && a.obj(j) == a.params["nVals"]
 	}
 	n, ok := a.tv.constInt(ix.Index)
 	return ok && n == 0
